@@ -126,7 +126,8 @@ Proof. exact (seg_on_sent_counts). Qed.
 Theorem c03_eof_after_all_partial :
   forall (s : vsock) m s' r,
   ch_type (m_hdr m) = ST_FIN ->
-  (v_state s = Established \/ (exists f, v_state s = FinWait1 f) \/ v_state s = FinWait2) ->
+  ((exists k, v_state s = SynAckSent k) \/
+   v_state s = Established \/ (exists f, v_state s = FinWait1 f) \/ v_state s = FinWait2) ->
   process_incoming_message cci s m = SOk s' r -> v_rx s' <> v_rx s ->
   ch_seq (m_hdr m) = wadd16 (v_last_consumed s) 1.
 Proof. exact (fin_stored_only_in_sequence cci). Qed.
